@@ -135,6 +135,12 @@ func c11Eval(c *fw.Ctx, data any) {
 		want  []byte
 		again int // this many messages later the producer submits the very same object once more (a cached keep-alive)
 	}
+	type keptMsg struct {
+		xid  uint32
+		msg  util.Message
+		want []byte
+	}
+	var kept []keptMsg // submitted objects looked at again after the stream is done with them
 	items := make([][]item, P)
 	expected := map[uint32][]byte{}
 	expectedCount := map[uint32]int{} // how often each message object is submitted
@@ -169,8 +175,16 @@ func c11Eval(c *fw.Ctx, data any) {
 			xid := uint32(p)<<20 | uint32(s)
 			rr := prng.Derive(cs.MsgSeed, 4242, uint64(xid))
 			if rr.Chance(1, 10) {
-				// a pre-encoded frame handed over as a raw buffer (what a relay or a keep-alive cache would submit)
-				it.msg = util.NewBuffer(append([]byte(nil), it.want...))
+				// a pre-encoded frame handed over as a raw buffer (what a relay or a keep-alive cache would submit);
+				// the stream has no business with its content, whatever the version byte says
+				if rr.Bool() {
+					it.want[0] = byte(rr.Pick(1, 5, 6, 0))
+				}
+				raw := util.NewBuffer(append([]byte(nil), it.want...))
+				it.msg = raw
+				kept = append(kept, keptMsg{xid: xid, msg: raw, want: it.want})
+			} else if rr.Chance(1, 10) {
+				kept = append(kept, keptMsg{xid: xid, msg: it.msg, want: it.want})
 			}
 			if rr.Chance(1, 8) {
 				it.again = 1 + rr.Intn(3)
@@ -205,6 +219,8 @@ func c11Eval(c *fw.Ctx, data any) {
 		conn.WriteSleepEvery = 8
 	}
 	s := startStream(conn, "eager", 0, 0)
+	// the exported protocol-version field of the stream, set before anything is submitted
+	s.stream.Version = uint8([]int{0, 0, 4, 1, 5, 255}[cs.MsgSeed%6])
 	c.Count("streams", 1)
 	c.Set("producers", fmt.Sprint(P))
 	c.Set("gomaxprocs", fmt.Sprint(cs.Procs))
@@ -329,6 +345,17 @@ func c11Eval(c *fw.Ctx, data any) {
 	}
 	if len(s.errs) > 0 {
 		viol("error", "spurious-error", "an error was published: "+fmtErrs(s.errs))
+	}
+	// sending must leave the submitted object as it was: its encoding afterwards is the encoding before
+	for _, k := range kept {
+		var after []byte
+		var aerr error
+		if pn, pv, _ := fw.Recover(func() { after, aerr = k.msg.MarshalBinary() }); pn || aerr != nil {
+			viol("disturbed", "submitted-message-unencodable", fmt.Sprintf("message xid %#x can no longer be encoded after it was sent: %v %v", k.xid, pv, aerr))
+		} else if !bytes.Equal(after, k.want) {
+			viol("disturbed", "submitted-message-changed", fmt.Sprintf("message xid %#x (%T) encodes differently after it was sent\nbefore: %s\nafter:  %s", k.xid, k.msg, hexHead(k.want), hexHead(after)))
+		}
+		c.Count("submitted_objects_rechecked", 1)
 	}
 	if cs.Inbound > 0 {
 		got := map[int]int{}
